@@ -242,6 +242,9 @@ def shards(tier, seed):
     out = [dict(leg="history", prefix=p, fresh=fresh) for p in prefixes]
     for base in range(len(BASES)):
         out.append(dict(leg="cocompute", base=base, tier=tier))
+    for engine in ("numpy", "flox", "numba", "numbagg"):
+        for dtype in ARG_DTYPES:
+            out.append(dict(leg="args", engine=engine, dtype=dtype, tier=tier))
     return out
 
 
@@ -312,6 +315,99 @@ def run_history(res, shard):
             return
         hist = hist + [b]
     res.sample(dict(leg="history", prefix=prefix, walk=order[:4] + ["..."], calls=len(hist), distinct_state_snapshots=len(seen_states)))
+
+
+# --------------------------------------------------------------------------------------------- argument leg
+
+ARG_DTYPES = ["float64", "float32", "int64", "bool"]
+ARG_LABELS = {
+    "sorted": [0, 0, 1, 1, 2, 2],
+    "unsorted": [1, 0, 1, 2, 0, 2],
+    "float-nan-sorted": [0.0, 0.0, 1.0, 1.0, NAN, NAN],
+    "float-nan": [1.0, NAN, 0.0, 1.0, 0.0, NAN],
+}
+ARG_SCANS = ["nancumsum", "ffill", "bfill"]
+
+
+def arg_layouts(dtype):
+    base = {"float64": [[1.0, -2.0, NAN, 3.5, 0.5, 7.0], [2.0, 2.0, -1.0, NAN, 4.0, -3.0]],
+            "float32": [[1.0, -2.0, NAN, 3.5, 0.5, 7.0], [2.0, 2.0, -1.0, NAN, 4.0, -3.0]],
+            "int64": [[1, -2, 3, 3, 0, 7], [2, 2, -1, 5, 4, -3]],
+            "bool": [[True, False, True, True, False, False], [False, False, True, False, True, True]]}[dtype]
+    A = np.array(base, dtype=dtype)
+    yield "2d-C", A.copy()
+    yield "1d", A[0].copy()
+    yield "2d-F", np.asfortranarray(A)          # not C-contiguous: reshapes copy
+    yield "2d-view", np.concatenate([A, A], axis=0)[::2]  # a strided view of a larger buffer
+
+
+def run_args(res, shard):
+    """Every documented reduction and scan, eager and chunked, on writable in-memory arrays of several memory layouts: the
+    bytes of the value array, of the label array and of expected_groups are the same after the call (and its compute)."""
+    from mc import e1, space
+
+    e1.CHECK_INPUTS = True
+    engine, dtype = shard["engine"], shard["dtype"]
+    quick = shard["tier"] == "quick"
+    funcs = [f for f in space.REDUCIBLE + space.ORDER_STATS
+             if not (f in ("any", "all") and dtype != "bool") and not (f in space.ORDER_STATS and dtype == "bool")]
+    for lname, lab in ARG_LABELS.items():
+        for layout, arr in arg_layouts(dtype):
+            pristine = arr.copy()
+            by = np.array(lab)
+            by0 = by.copy()
+            expected = np.array([0, 1, 2], dtype=by.dtype)
+            exp0 = expected.copy()
+            variants = [("eager", None, None)]
+            if arr.ndim == 2 and (not quick or layout == "2d-C"):
+                variants += [("dask", "map-reduce", (3, 3)), ("dask", "cohorts", (2, 2, 2))]
+                if lname in ("sorted", "float-nan-sorted"):
+                    variants.append(("dask", "blockwise", (2, 2, 2)))
+            for func in funcs + ARG_SCANS:
+                for how, method, chunks in variants:
+                    if quick and how == "dask" and engine in ("numba",) and func not in ("nanvar", "nanmax", "sum", "nanfirst", "nancumsum", "ffill"):
+                        continue
+                    a = arr if how == "eager" else e1.make_dask(arr, ((arr.shape[0],), chunks))
+                    kw = {}
+                    if func in ARG_SCANS:
+                        if how == "dask" and method != "map-reduce":
+                            continue
+                        if engine != "numpy":
+                            continue  # scans take no engine argument: explored once
+                        out = e1.call_scan(a, by, func=func)
+                    else:
+                        if func in ("quantile", "nanquantile"):
+                            kw["finalize_kwargs"] = dict(q=0.25)
+                        if how == "dask":
+                            kw["method"] = method
+                        out = e1.call_reduce(a, by, func=func, engine=engine, expected_groups=expected, fill_value=0, **kw)
+                    res.evaluations += 1
+                    res.transitions += 1
+                    res.compared += 1
+                    res.states += 1
+                    res.nontrivial += 1
+                    case = dict(leg="args", engine=engine, dtype=dtype, func=func, labels=lname, layout=layout, how=how, method=method)
+                    tags = dict(leg2="args", engine=engine, dtype=dtype, func=func, layout=layout, how=how, method=str(method))
+                    changed = []
+                    if out.kind == "error" and out.exc == "InputMutated":
+                        changed.append(out.msg)
+                    if not np.array_equal(arr, pristine, equal_nan=True):
+                        changed.append(f"value array now {arr.tolist()!r}")
+                        arr[...] = pristine
+                    if by.tobytes() != by0.tobytes():
+                        changed.append(f"labels now {by.tolist()!r}")
+                        by[...] = by0
+                    if expected.tobytes() != exp0.tobytes():
+                        changed.append(f"expected_groups now {expected.tolist()!r}")
+                        expected[...] = exp0
+                    if changed:
+                        res.outcomes["argument-mutated"] += 1
+                        res.violate("argument-mutated", case, dict(changed=changed), "arguments are never modified",
+                                    tags=dict(tags, kind="argument"), size=6)
+                    else:
+                        res.outcomes["unchanged" if out.kind == "ok" else f"unchanged-{out.kind}"] += 1
+    res.sample(dict(leg="args", engine=engine, dtype=dtype, funcs=len(funcs) + len(ARG_SCANS), labels=list(ARG_LABELS),
+                    layouts=["2d-C", "1d", "2d-F", "2d-view"]))
 
 
 # --------------------------------------------------------------------------------------------- co-computation leg
@@ -456,6 +552,8 @@ def run_shard(shard):
     res = Result()
     if shard["leg"] == "history":
         run_history(res, shard)
+    elif shard["leg"] == "args":
+        run_args(res, shard)
     else:
         run_cocompute(res, shard)
     return res
@@ -464,7 +562,9 @@ def run_shard(shard):
 def replay(payload):
     res = Result()
     c = payload["case"]
-    if "history" in c:
+    if c.get("leg") == "args":
+        run_args(res, dict(engine=c["engine"], dtype=c["dtype"], tier="thorough"))
+    elif "history" in c:
         names = [n for n in c["history"] if n != "..."]
         run_history(res, dict(prefix=names[:2] if len(names) > 2 else names[:1], fresh=_fresh_all()))
     else:
